@@ -8,6 +8,7 @@ reported as *bounded*, never counted as proved; (b) as a soundness cross-check o
 obligations: a native failure of a proved obligation is a checker error."""
 import itertools
 import random
+import zlib
 
 import z3
 
@@ -185,7 +186,8 @@ def cross_check(interp, contract, shape, seed, n_samples=40, max_len=10):
     """-> (evaluations, failures[list of replay infos], skipped)"""
     if shape.real is None:
         return 0, [], 0
-    rng = random.Random((hash((contract.qualname, shape.name)) & 0xffffffff) ^ seed)
+    # (zlib.crc32, not hash(): str hashes are randomised per process, and a check must explore the same inputs on every run)
+    rng = random.Random(zlib.crc32(f'{contract.qualname}|{shape.name}'.encode()) ^ seed)
     evals = 0
     fails = []
     skipped = 0
